@@ -173,6 +173,7 @@ structure World where
   oauthNonces : Store String := []
   codes : Store Session := []
   nextCode : Nat := 0
+  nextNonce : Nat := 0
 
 structure TokenResponse where
   token : String
@@ -184,6 +185,7 @@ structure TokenResponse where
 
 def tokName (n : Nat) : String := "tok#" ++ toString n
 def codeName (n : Nat) : String := "code#" ++ toString n
+def nonceName (n : Nat) : String := "on#" ++ toString n
 
 /-! ### per-presentation checks (s2s_vptoken.go, validation.go) -/
 
@@ -425,7 +427,7 @@ structure AuthResp where
 
 inductive AuthOut where
   | code (name : String) (clientState : String)
-  | next (owner : String)
+  | next (owner : String) (nonce : String)
   deriving DecidableEq, Repr
 
 /-- `handleAuthorizeResponseSubmission`, in code order -/
@@ -465,7 +467,11 @@ def authorizeResponse (cfg : Cfg) (w : World) (now : Nat) (r : AuthResp) : World
                     let session' := { session with consumer := consumer }
                     let w2 := { w1 with states := w1.states.put now cfg.stateTtl state session' }
                     match consumer.next with
-                    | some owner => (w2, .ok (.next owner))
+                    | some owner =>
+                      -- `nextOpenID4VPFlow`: a fresh nonce for the next wallet, mapped to the same state
+                      let n := nonceName w2.nextNonce
+                      ({ w2 with oauthNonces := w2.oauthNonces.put now cfg.oauthNonceTtl n state,
+                                 nextNonce := w2.nextNonce + 1 }, .ok (.next owner n))
                     | none =>
                       let name := codeName w2.nextCode
                       ({ w2 with codes := w2.codes.put now cfg.codeTtl name session', nextCode := w2.nextCode + 1 },
